@@ -345,6 +345,7 @@ func (p *Parser) parseSelect(stmt *SelectStatement) error {
 		}
 
 		var expr strings.Builder
+		var prevToken Token
 		parenthesesLevel := 0 // 跟踪括号嵌套层级
 
 		// 设置最大表达式长度，防止无限循环
@@ -368,6 +369,16 @@ func (p *Parser) parseSelect(stmt *SelectStatement) error {
 			// 只有在括号层级为0时，逗号才被视为字段分隔符
 			if parenthesesLevel == 0 && (currentToken.Type == TokenFROM || currentToken.Type == TokenComma || currentToken.Type == TokenAS || currentToken.Type == TokenEOF || currentToken.Type == TokenOVER) {
 				break
+			}
+
+			// "<>" is "!=": replace the "<" written for the previous token
+			if isNotEqualPair(prevToken, currentToken) && expr.Len() > 0 {
+				written := expr.String()
+				expr.Reset()
+				expr.WriteString(written[:len(written)-1] + "!=")
+				prevToken = currentToken
+				currentToken = p.lexer.NextToken()
+				continue
 			}
 
 			// 如果不是第一个token，添加空格分隔符
@@ -427,6 +438,7 @@ func (p *Parser) parseSelect(stmt *SelectStatement) error {
 				}
 			}
 			expr.WriteString(currentToken.Value)
+			prevToken = currentToken
 			currentToken = p.lexer.NextToken()
 		}
 
@@ -480,8 +492,15 @@ func (p *Parser) parseSelect(stmt *SelectStatement) error {
 	return nil
 }
 
+// isNotEqualPair reports whether tok is the '>' of the SQL operator "<>", which the
+// lexer emits as a TokenLT directly followed by a TokenGT.
+func isNotEqualPair(prev, tok Token) bool {
+	return prev.Type == TokenLT && tok.Type == TokenGT && tok.Pos == prev.Pos+1
+}
+
 func (p *Parser) parseWhere(stmt *SelectStatement) error {
 	var conditions []string
+	var prevTok Token
 	current := p.lexer.NextToken() // 获取下一个token
 	if current.Type != TokenWHERE {
 		// 如果不是WHERE，回退token位置
@@ -507,6 +526,13 @@ func (p *Parser) parseWhere(stmt *SelectStatement) error {
 			tok.Type == TokenOrder {
 			break
 		}
+		// "<>" is "!=": replace the "<" collected for the previous token
+		if isNotEqualPair(prevTok, tok) && len(conditions) > 0 {
+			conditions[len(conditions)-1] = "!="
+			prevTok = tok
+			continue
+		}
+		prevTok = tok
 		switch tok.Type {
 		case TokenIdent, TokenNumber, TokenQuotedIdent:
 			conditions = append(conditions, tok.Value)
@@ -635,6 +661,7 @@ func (p *Parser) parseGlobalWindow(stmt *SelectStatement) error {
 	// downstream clause parsers (parseWith/parseHaving/...) can see it — same
 	// convention as parseWindowFunction leaving the token after ")" in place.
 	var parts []string
+	var prevTok Token
 	maxIter := 100
 	iter := 0
 	for {
@@ -649,6 +676,13 @@ func (p *Parser) parseGlobalWindow(stmt *SelectStatement) error {
 			p.lexer.restore(snap)
 			break
 		}
+		// "<>" is "!=": replace the "<" collected for the previous token
+		if isNotEqualPair(prevTok, t) && len(parts) > 0 {
+			parts[len(parts)-1] = "!="
+			prevTok = t
+			continue
+		}
+		prevTok = t
 		switch t.Type {
 		case TokenEQ:
 			parts = append(parts, "==")
@@ -727,6 +761,7 @@ func (p *Parser) parseOverPartitionBy(spec *types.OverSpec) error {
 // 仅在深度归零时 ')' 才是 OVER 子句结束。
 func (p *Parser) parseOverWhen() (string, error) {
 	var parts []string
+	var prevTok Token
 	depth := 0
 	for i := 0; i < 100; i++ {
 		snap := p.lexer.save()
@@ -741,6 +776,13 @@ func (p *Parser) parseOverWhen() (string, error) {
 		case TokenRParen:
 			depth--
 		}
+		// "<>" is "!=": replace the "<" collected for the previous token
+		if isNotEqualPair(prevTok, t) && len(parts) > 0 {
+			parts[len(parts)-1] = "!="
+			prevTok = t
+			continue
+		}
+		prevTok = t
 		switch t.Type {
 		case TokenEQ:
 			parts = append(parts, "==")
@@ -1532,6 +1574,7 @@ func (p *Parser) parseHaving(stmt *SelectStatement) error {
 	iterations := 0
 
 	var conditions []string
+	var prevTok Token
 	for {
 		iterations++
 		// 安全检查：防止无限循环
@@ -1544,6 +1587,13 @@ func (p *Parser) parseHaving(stmt *SelectStatement) error {
 		if tok.Type == TokenLIMIT || tok.Type == TokenEOF || tok.Type == TokenWITH || tok.Type == TokenOrder {
 			break
 		}
+		// "<>" is "!=": replace the "<" collected for the previous token
+		if isNotEqualPair(prevTok, tok) && len(conditions) > 0 {
+			conditions[len(conditions)-1] = "!="
+			prevTok = tok
+			continue
+		}
+		prevTok = tok
 
 		switch tok.Type {
 		case TokenIdent, TokenNumber:
